@@ -3,6 +3,7 @@ import RlibModel.Lemmas.RandLcg
 import RlibModel.Lemmas.RandShuffle
 import RlibModel.Lemmas.RandFloat
 import RlibModel.Lemmas.RandRne
+import RlibModel.Lemmas.RandMulti
 import RlibModel.Model.RandRng
 /-!
 # C14 — random draws respect range and seed; shuffle is a fair permutation
@@ -228,6 +229,50 @@ example : iter (lcgStep exampleGen) (3 + 2 ^ 2) 42 % 2 ^ 2 = iter (lcgStep examp
 example : iter (lcgStep exampleGen) 4 42 ≠ 42 := by decide
 example : (next exampleGen ⟨true, 32⟩ (.range 0 4) 42).2 = .ok 0 := by decide
 example : mix exampleGen 0 = 0 ∧ mix exampleGen 1 < 2 ^ 64 := by decide
+
+/-! ## several live generators, copies made mid-history (the `multi` case lines) -/
+
+/-- **Copies give equal streams, for every history.** Any number of generators alive at once and used
+    interleaved, copied at any moment by any means (`Op.dup`: `let b = a`, `a.clone()`, a derived `Clone` of a
+    holder, …; `Op.assign`: `=` / `clone_from` into a used generator; `Op.dupAll`: `Vec<Rng>::clone`), re-seeded
+    from drawn words (`Op.fork`): every operation of the model (a generator is its state) returns exactly the
+    words the specification assigns to the generator's LINEAGE `(seed, k)` — the words number `k, k+1, …` of the
+    stream of `seed` — and the states left behind are the states of the final lineages. -/
+theorem multi_run_eq_spec (g : Gen) (seeds : List Nat) (ops : List Multi.Op) :
+    (Multi.run g seeds ops).1 = (Multi.specRun g (Multi.fresh seeds) ops).1 ∧
+    (Multi.run g seeds ops).2 = (Multi.specRun g (Multi.fresh seeds) ops).2.map (Multi.Lin.state g) := by
+  have h := Multi.run_eq_spec g (Multi.fresh seeds) ops
+  rw [Multi.fresh_state] at h
+  rw [h]
+  exact ⟨rfl, rfl⟩
+
+/-- The literal clause: after generator `i` has been copied (the copy is pushed as generator number `len`),
+    `c` words drawn from the original and then `c` words drawn from the copy are the same words, whatever the
+    other live generators are. -/
+theorem copy_and_original_agree (g : Gen) (slots : List Nat) (i c : Nat) (hi : i < slots.length) :
+    (Multi.run g slots [.dup i, .use i c, .use slots.length c]).1 =
+      [[], (rawStream g c slots[i]).1, (rawStream g c slots[i]).1] := by
+  have hm : i % slots.length = i := Nat.mod_eq_of_lt hi
+  have hm1 : i % (slots.length + 1) = i := Nat.mod_eq_of_lt (by omega)
+  have hm2 : slots.length % (slots.length + 1) = slots.length := Nat.mod_eq_of_lt (by omega)
+  simp [Multi.run, Multi.step, hm, hm1, hm2, hi, List.getElem?_append_left]
+
+/-- … and the same for a copy ASSIGNED into a generator that was already in use (`b = a`, `b.clone_from(&a)`). -/
+theorem assigned_copy_agrees (g : Gen) (slots : List Nat) (i j c : Nat) (hi : i < slots.length) (hj : j < slots.length)
+    (hij : i ≠ j) :
+    (Multi.run g slots [.assign i j, .use i c, .use j c]).1 =
+      [[], (rawStream g c slots[i]).1, (rawStream g c slots[i]).1] := by
+  have hm : i % slots.length = i := Nat.mod_eq_of_lt hi
+  have hmj : j % slots.length = j := Nat.mod_eq_of_lt hj
+  have hji : j ≠ i := fun h => hij h.symm
+  simp [Multi.run, Multi.step, hm, hmj, hi, hj, hij, hji]
+
+/-! non-vacuity: two generators from equal seeds, a copy taken after one word, a re-seeded generator; evaluated
+    by the model itself -/
+example : (Multi.run exampleGen [42, 42] [.use 0 1, .dup 0, .use 1 2, .use 0 1, .use 2 1, .assign 1 0, .use 0 1, .dupAll, .use 5 1]).1 =
+    [[5761867088736727952], [], [5761867088736727952, 8179765220119699510], [8179765220119699510], [8179765220119699510], [],
+     [(rawStream exampleGen 3 42).1.getD 2 0], [], [(rawStream exampleGen 3 42).1.getD 2 0]] := by decide
+example : (Multi.specRun exampleGen (Multi.fresh [7]) [.fork 0, .use 1 1]).2 = [⟨7, 1⟩, ⟨(rawStream exampleGen 1 7).1.getD 0 0, 1⟩] := by decide
 
 /-! ## shuffle -/
 
